@@ -7,6 +7,8 @@ import Operon.Gen.QuorumTables
   * `classifyAction` / `Payload` / `confOfPayload`: the part of `_protein_to_vote` that the protocol's voter kinds
     P E B D U and confidence classes `none` / number / `bad` abstract from - action-type STRINGS (code points) and
     payload SHAPES - so that the classification table can be reproduced row by row by `toVote`.
+  * `Answer` / `FaultPoint` / `proteinToVote` / `collectLoop`: the collection loop of `run_vote` as written, with every
+    point of the per-voter step at which an answer can fail (`Lemmas/C06Tab.lean`: it is `collect` / `afterVote`).
   * `cfgOfCode`: table configuration codes ↦ `Cfg` (7 / 8 = what `EmergencyQuorum`'s constructor passes on).
   * `outcomeCode`: one digit per vote (1 reached & PERMIT, 2 not reached & BLOCK, 4 not reached & ABSTAIN,
     8 ZeroDivisionError, 9 anything else - never produced by the model, see `Lemmas/C06Tab.lean`).
@@ -52,6 +54,62 @@ def confOfPayload : Payload → Conf
   | .confNumeric c => .num c
   | .confBad => .bad
   | .unrenderable _ => .bad
+
+/-! ### the collection loop of `run_vote`, step by step -/
+
+/-- what `profile.agent.express(signal)` hands back to the collection loop of `run_vote` -/
+inductive Answer where
+  | raised                                       -- `express` raises an `Exception`
+  | unusable                                     -- returns something without `action_type` / with an unreadable `payload`
+  | protein (action : List Nat) (payload : Payload)
+  deriving Repr, DecidableEq
+
+/-- the points of the per-voter step (all inside the `try`), in program order, at which an answer can fail -/
+inductive FaultPoint where
+  | express            -- `profile.agent.express(signal)`
+  | readAnswer         -- `protein.action_type` / `protein.payload`
+  | readConfidence     -- `"confidence" in payload`, `float(payload["confidence"])`, the NaN test
+  | renderReasoning    -- `str(protein.payload) if protein.payload else ""`
+  deriving Repr, DecidableEq
+
+def Answer.faultPoint : Answer → Option FaultPoint
+  | .raised => some .express
+  | .unusable => some .readAnswer
+  | .protein _ .confBad => some .readConfidence
+  | .protein _ (.unrenderable _) => some .renderReasoning
+  | .protein _ _ => none
+
+/-- the protocol's abstraction of an answer: the voter kind and confidence class of `Behaviour` -/
+def answerBehaviour : Answer → Behaviour
+  | .raised => ⟨.raises, .absent⟩
+  | .unusable => ⟨.raises, .absent⟩
+  | .protein a p => ⟨classifyAction a, confOfPayload p⟩
+
+/-- `_protein_to_vote(protein, profile)` stage by stage; `none` = it raises (nothing has been appended yet) -/
+def proteinToVote (m : Member) : Answer → Option Vote
+  | .raised => none
+  | .unusable => none
+  | .protein a p =>
+    match p with
+    | .notDict => some ⟨voteTypeOf (classifyAction a), 1, m.weight * m.rel⟩
+    | .dictWithout => some ⟨voteTypeOf (classifyAction a), 1, m.weight * m.rel⟩
+    | .confNumeric c => some ⟨voteTypeOf (classifyAction a), clamp01 c, m.weight * m.rel⟩
+    | .confBad => none
+    | .unrenderable _ => none
+
+/-- the collection loop of `run_vote` as written: per member `try: express → _protein_to_vote → votes.append(vote) →
+    votes_cast += 1`, `except Exception: votes.append(zero-confidence ABSTAIN with the bare profile weight)` -/
+def collectLoop : List Member → List Answer → List Vote × List Member
+  | m :: ms, a :: as =>
+    match proteinToVote m a with
+    | some v => (v :: (collectLoop ms as).1, ⟨m.name, m.weight, m.rel, m.votesCast + 1, m.correct⟩ :: (collectLoop ms as).2)
+    | none => (⟨.abstain, 0, m.weight⟩ :: (collectLoop ms as).1, m :: (collectLoop ms as).2)
+  | _, _ => ([], [])
+
+
+/-- the electorate the protocol abstracts a list of answers to -/
+def answerVoters (c : List Member) (as : List Answer) : List Voter :=
+  List.zipWith (fun m a => voterOfMember m (answerBehaviour a)) c as
 
 /-- payload shape codes of the generator (quorum_tables.PAYLOADS) -/
 def payloadOfCode (code : Nat) (c : Rat) : Payload :=
